@@ -1357,3 +1357,70 @@ def resolution_small_trees(run):
         finally:
             shutil.rmtree(top, ignore_errors=True)
     core.explore(lambda: None, lambda p, out: go(p))
+
+
+# ---------------------------------------------------------------------------
+# request: every call of the API is a request of its own
+
+@harness(['C04', 'C09'], 'supp.project.request + supp.assistant.assist / location / supp.linter.lint [every call of the API is a request]')
+def request_wrapper(run):
+    """request(f)(project, *args, **kwargs): enters project.check_changes() exactly once, calls f once inside it with the same arguments,
+    returns what f returns or raises what f raises, and has left the context afterwards; assist, location and lint are wrapped by it (the
+    functions themselves are under contract unwrapped: the loader takes `__wrapped__`).  This is what makes the answer independent of the
+    requests made before it also for a caller that holds a Project and never enters check_changes() itself"""
+    import contextlib
+    import supp.project as Pj
+    import supp.assistant as A
+    import supp.linter as L
+
+    def go(path):
+        log = []
+
+        class P(object):
+            @contextlib.contextmanager
+            def check_changes(self):
+                log.append('enter')
+                try:
+                    yield
+                finally:
+                    log.append('exit')
+        sentinel = object()
+
+        def f(project, *a, **k):
+            log.append(('call', project, a, k))
+            if k.get('fail'):
+                raise KeyError('from f')
+            return sentinel
+        w = Pj.request(f)
+        p = P()
+        r = w(p, 1, 'two', x=3)
+        prove('one-context-around-one-call', r is sentinel and log == ['enter', ('call', p, (1, 'two'), {'x': 3}), 'exit'],
+              clause='check_changes() entered once, f called once inside it with the same arguments, its result returned [%r]' % (log,), path=path)
+        del log[:]
+        try:
+            w(p, fail=True)
+            exc = None
+        except KeyError as e:
+            exc = e
+        prove('exceptions-propagate-and-the-context-is-left', exc is not None and exc.args == ('from f',) and log[0] == 'enter' and log[-1] == 'exit' and len(log) == 3,
+              clause='what f raises is raised, after the context was left [%r, %r]' % (exc, log), path=path)
+        del log[:]
+        r = w(None, 5)
+        prove('no-project-no-context', r is sentinel and log == [('call', None, (5,), {})], clause='without a project there is nothing to check [%r]' % (log,), path=path)
+        # the three entry points are requests
+        for mod, name, args in ((A, 'assist', ('x = 1\nx', (2, 1), 'f.py')), (A, 'location', ('x = 1\nx', (2, 1), 'f.py')), (L, 'lint', ('x = 1\n', 'f.py'))):
+            fn = getattr(mod, name)
+            project = Pj.Project(['/nonexistent'])
+            entered = []
+            real = project.check_changes
+
+            def counting(real=real, entered=entered):
+                entered.append(1)
+                return real()
+            project.check_changes = counting
+            before = project.__dict__.get('_request', 0)
+            fn(project, *args)
+            prove('%s-is-a-request' % name, len(entered) == 1 and project.__dict__.get('_request', 0) == before + 1 and hasattr(fn, '__wrapped__'),
+                  clause='%s enters a change-checking context of its own: one per call [%d, request number %r -> %r]' % (
+                      name, len(entered), before, project.__dict__.get('_request')), path=path)
+    core.explore(lambda: None, lambda p, out: go(p))
